@@ -12,7 +12,7 @@
  *   -DVKIND=0 delta-length | 1 delta-byte-array    -DVN=<strings, concrete>   -DVW=<maximal length; lengths symbolic 0..VW>
  *   -DFAIL   the summarised integer encoder reports an error on call number IN.failcall: the string encoder must not
  *            return OK.
- * Open finding F-DELTA-EMPTY: n = 0 is refused (CARQUET_ERROR_INVALID_ARGUMENT). */
+ * Finding F-DELTA-EMPTY (fixed in /repo by f0886c2): n = 0 used to be refused (CARQUET_ERROR_INVALID_ARGUMENT). */
 #include "c11_common.h"
 #include <carquet/carquet.h>
 
@@ -74,14 +74,10 @@ void harness(void) {
     carquet_status_t st = carquet_delta_strings_encode(ba, VN, &buf);
     const int ncalls = 2;
 #endif
-#if VN == 0
-#ifdef EXCLUDE_F_DELTA_EMPTY
-    /* open finding F-DELTA-EMPTY: the empty sequence (the only input of this obligation) is refused; what stays checked
-       is that the refusal is clean */
+#if VN == 0 && defined(EXCLUDE_F_DELTA_EMPTY)
+    /* finding F-DELTA-EMPTY (while listed as open): the empty sequence (the only input of this obligation) is refused;
+       what stays checked is that the refusal is clean */
     VERIF_ASSERT(st != CARQUET_OK && buf.size == 0 && g_calls == 0, "empty sequence refused without emitting anything");
-#else
-    VERIF_ASSERT(st == CARQUET_OK, "encoder accepts the empty sequence");
-#endif
 #elif defined(FAIL)
     VERIF_ASSERT(st != CARQUET_OK, "a failing integer encoder makes the string encoder fail");
 #else
